@@ -93,6 +93,31 @@ def run(ck, prog, ctx):
             else:
                 ck.undecided("ROLE", key, "%s: numerator of a division does not derive from row_maxes/col_maxes" % name, where=b.where(site["line"]))
     ck.floor("ROLE", "dimension divisions in the standard combiners", ndiv, 5)
+    # funSimMax takes the larger of the two MEANS: every comparison / max in it is between quotients (sum / dimension), never raw sums
+    fm = prog.body(STD + "::fun_sim_max")
+    if fm is not None:
+        pvl = Prov(prog, inline=False)
+        cmps = []
+        for pos, st in fm.stmts():
+            if st.k == "assign" and st.rv["k"] == "bin" and st.rv["op"] in ("Gt", "Lt", "Ge", "Le") and st.rv.get("lty") in ("f32", "f64"):
+                cmps.append((st.rv["l"], st.rv["r"], st.line))
+        for bi, t in fm.calls():
+            if t.callee.method in ("max", "min", "partial_cmp", "total_cmp", "gt", "lt") and len(t.args) == 2 and re.search(r"f32|f64", t.callee.def_args or ""):
+                cmps.append((t.args[0], t.args[1], t.line))
+        if not cmps:
+            ck.undecided("SELECT", "fun_sim_max/compare", "no comparison of the two directions recognised", where=fm.where())
+        for n, (l, r, line) in enumerate(cmps):
+            def desc(o):
+                at = pvl.of_operand(fm, o)
+                has_div = any(a[0] == "op" and a[1] == "Div" for a in at) or any(a[0] == "call" and a[1].endswith("::div") for a in at)
+                side = ("row" if any(a[0] == "call" and a[1].endswith("::row_maxes") for a in at) else "") + ("col" if any(a[0] == "call" and a[1].endswith("::col_maxes") for a in at) else "")
+                return has_div, side
+            (dl, sl), (dr, sr) = desc(l), desc(r)
+            ok = dl and dr and {sl, sr} == {"row", "col"}
+            ck.ob("SELECT", "fun_sim_max/compare/%d" % n, ok, "funSimMax compares %s of the %s direction with %s of the %s direction%s" % ("the mean" if dl else "the RAW SUM", sl or "?", "the mean" if dr else "the RAW SUM", sr or "?", "" if ok else ": for non-square matrices the larger sum need not be the larger mean"), where=fm.where(line))
+        mx = [t for _, t in fm.calls() if t.callee.method == "min"]
+        for t in mx:
+            ck.violation("SELECT", "fun_sim_max/direction", "funSimMax takes the SMALLER of the two means", where=fm.where(t.line))
     dm = prog.body("matrix::Matrix::<'a, T>::dim")
     if ck.anchor("ROLE", "Matrix::dim", dm):
         a0 = field_names(pv.of_return(dm, (("f", "0", "tuple"),)), "Matrix")
